@@ -336,50 +336,53 @@ Proof. intros. apply email_fallback. eapply names_for_nonascii; eauto. Qed.
 
 (* ------------------------------------------------------------------ username *)
 
-(* the two names that go into the name part *)
-Definition used_names (matching : bool) (lv : lvars) (ff fl : str) : str * str :=
-  match names_for matching lv with Some p => p | None => (ff, fl) end.
-
-Lemma namepart_eq m lv ff fl uuid :
-  exists sep, (sep = DOT \/ sep = USCORE) /\
-    namepart m lv ff fl uuid
-    = fst (used_names m lv ff fl) ++ [sep] ++ snd (used_names m lv ff fl) ++ [USCORE] ++ uuid.
+Lemma names_of_no_at m lv ff fl :
+  no_at ff = true -> no_at fl = true -> no_at (names_of m lv ff fl) = true.
 Proof.
-  unfold namepart, used_names. destruct (names_for m lv) as [[f l]|]; cbn [fst snd]; eauto.
-Qed.
-
-Lemma namepart_length m lv ff fl uuid :
-  length (namepart m lv ff fl uuid)
-  = (length (fst (used_names m lv ff fl)) + length (snd (used_names m lv ff fl)) + 2 + length uuid)%nat.
-Proof.
-  destruct (namepart_eq m lv ff fl uuid) as (sep & _ & ->). rewrite !app_length. cbn [length]. lia.
-Qed.
-
-Lemma used_names_no_at m lv ff fl :
-  no_at ff = true -> no_at fl = true ->
-  no_at (fst (used_names m lv ff fl)) = true /\ no_at (snd (used_names m lv ff fl)) = true.
-Proof.
-  intros Hf Hl. unfold used_names. destruct (names_for m lv) as [[f l]|] eqn:N; cbn [fst snd]; auto.
-  destruct (names_for_alnum _ _ _ _ N). split; apply alnum_no_at; auto.
-Qed.
-
-Lemma namepart_no_at m lv ff fl uuid :
-  no_at ff = true -> no_at fl = true -> no_at uuid = true -> no_at (namepart m lv ff fl uuid) = true.
-Proof.
-  intros Hf Hl Hu. destruct (used_names_no_at m lv ff fl Hf Hl) as [A B].
-  destruct (namepart_eq m lv ff fl uuid) as (sep & Hsep & ->).
-  rewrite !no_at_app, A, B, Hu. destruct Hsep as [-> | ->]; reflexivity.
+  intros Hf Hl. unfold names_of. destruct (names_for m lv) as [[f l]|] eqn:N.
+  - destruct (names_for_alnum _ _ _ _ N) as [A B].
+    rewrite !no_at_app, (alnum_no_at _ A), (alnum_no_at _ B). reflexivity.
+  - rewrite !no_at_app, Hf, Hl. reflexivity.
 Qed.
 
 Lemma slice0_no_at s n : no_at s = true -> no_at (slice0 s n) = true.
 Proof. intros H. unfold slice0. destruct (0 <=? n); apply no_at_firstn; auto. Qed.
 
+Lemma slice0_nonneg s n : 0 <= n -> slice0 s n = firstn (Z.to_nat n) s.
+Proof. intros H. unfold slice0. destruct (0 <=? n) eqn:E; [reflexivity|lia]. Qed.
+
 Lemma slice0_nonneg_length s n : 0 <= n -> (length (slice0 s n) <= Z.to_nat n)%nat.
-Proof. intros H. unfold slice0. destruct (0 <=? n) eqn:E; [|lia]. apply firstn_le_length. Qed.
+Proof. intros H. rewrite slice0_nonneg by auto. apply firstn_le_length. Qed.
 
 Lemma slice0_all s n : Z.of_nat (length s) <= n -> slice0 s n = s.
+Proof. intros H. rewrite slice0_nonneg by lia. apply firstn_all2. lia. Qed.
+
+Lemma join_unique_no_at names uuid :
+  no_at names = true -> no_at uuid = true -> no_at (join_unique names uuid) = true.
 Proof.
-  intros H. unfold slice0. destruct (0 <=? n) eqn:E; [|lia]. apply firstn_all2. lia.
+  intros A B. unfold join_unique. destruct names as [|c r]; auto.
+  rewrite !no_at_app, A, B. reflexivity.
+Qed.
+
+(* join_unique = a prefix that does not depend on the uuid, followed by the uuid *)
+Definition join_prefix (names : str) : str :=
+  match names with [] => [] | _ => names ++ [USCORE] end.
+Lemma join_unique_prefix names uuid : join_unique names uuid = join_prefix names ++ uuid.
+Proof.
+  unfold join_unique, join_prefix. destruct names; [reflexivity|]. rewrite <- app_assoc. reflexivity.
+Qed.
+
+Lemma namepart_max_len_le host : (length host <= 79)%nat ->
+  namepart_max_len host = 79 - Z.of_nat (length host).
+Proof. intros H. unfold namepart_max_len. lia. Qed.
+
+Lemma kept_names_length m lv host ff fl :
+  Z.of_nat (length (kept_names m lv host ff fl))
+  <= Z.max (namepart_max_len host - (unique_min_len + 1)) 0.
+Proof.
+  unfold kept_names.
+  pose proof (slice0_nonneg_length (names_of m lv ff fl)
+                (Z.max (namepart_max_len host - (unique_min_len + 1)) 0)) as L. lia.
 Qed.
 
 Section FakerHost.
@@ -398,15 +401,15 @@ Section FakerHost.
       exists np, user_name_of matching lv host ff fl uuid = np ++ [AT] ++ host /\ no_at np = true.
   Proof.
     intros m lv. unfold user_name_of.
-    set (np := namepart m lv ff fl uuid).
-    assert (no_at np = true) as Hnp by (apply namepart_no_at; auto).
-    set (n := 80 - (Z.of_nat (length host) + 1)).
-    assert (0 <= n) as Hn by (unfold n; lia).
-    pose proof (slice0_nonneg_length np n Hn) as L.
-    pose proof (slice0_no_at np n Hnp) as A.
+    set (np := join_unique (kept_names m lv host ff fl) uuid).
+    assert (no_at np = true) as Hnp.
+    { apply join_unique_no_at; auto. unfold kept_names. apply slice0_no_at, names_of_no_at; auto. }
+    pose proof (namepart_max_len_le host hostname_bounded) as M.
+    assert (0 <= namepart_max_len host) as Hn by lia.
+    pose proof (slice0_nonneg_length np _ Hn) as L.
+    pose proof (slice0_no_at np (namepart_max_len host) Hnp) as A.
     splits.
-    - assert (Z.to_nat n = 79 - length host)%nat as Q by (unfold n; lia).
-      rewrite !app_length. cbn [length]. lia.
+    - rewrite !app_length. cbn [length]. lia.
     - rewrite !count_at_app, (count_at_no_at _ A), (count_at_no_at _ hostname_no_at). reflexivity.
     - eexists; split; [reflexivity|exact A].
   Qed.
@@ -429,58 +432,68 @@ Proof.
   inversion S1; auto.
 Qed.
 
-(* Two usernames (of any two rows: names, hosts, branches may differ) neither of which was
-   truncated are different as soon as the uuids are. *)
+(* when names and the whole uuid fit, nothing is cut *)
+Lemma user_name_untruncated m lv host ff fl uuid :
+  (length (names_of m lv ff fl) + 1 + length uuid <= 79 - length host)%nat ->
+  (unique_min_len <= Z.of_nat (length uuid)) ->
+  user_name_of m lv host ff fl uuid
+  = join_unique (names_of m lv ff fl) uuid ++ [AT] ++ host.
+Proof.
+  intros H U. unfold user_name_of, kept_names. unfold unique_min_len in *.
+  assert (namepart_max_len host = 79 - Z.of_nat (length host)) as M by (unfold namepart_max_len; lia).
+  rewrite (slice0_all (names_of m lv ff fl)) by lia.
+  rewrite slice0_all; [reflexivity|].
+  rewrite join_unique_prefix, app_length. unfold join_prefix.
+  destruct (names_of m lv ff fl); cbn [length] in *; [lia|]. rewrite app_length. cbn [length]. lia.
+Qed.
+
+(* Any two usernames (of any two rows: names, hosts, branches may differ) in which names and
+   uuid fit completely are different as soon as the uuids are. *)
 Theorem username_unique_partial :
   forall m1 lv1 host1 ff1 fl1 uuid1 m2 lv2 host2 ff2 fl2 uuid2,
     no_at ff1 = true -> no_at fl1 = true -> no_at uuid1 = true ->
     no_at ff2 = true -> no_at fl2 = true -> no_at uuid2 = true ->
     length uuid1 = 36%nat -> length uuid2 = 36%nat ->
-    (length (fst (used_names m1 lv1 ff1 fl1)) + length (snd (used_names m1 lv1 ff1 fl1)) + 38
-       <= 79 - length host1)%nat ->
-    (length (fst (used_names m2 lv2 ff2 fl2)) + length (snd (used_names m2 lv2 ff2 fl2)) + 38
-       <= 79 - length host2)%nat ->
+    (length (names_of m1 lv1 ff1 fl1) + 37 <= 79 - length host1)%nat ->
+    (length (names_of m2 lv2 ff2 fl2) + 37 <= 79 - length host2)%nat ->
     uuid1 <> uuid2 ->
     user_name_of m1 lv1 host1 ff1 fl1 uuid1 <> user_name_of m2 lv2 host2 ff2 fl2 uuid2.
 Proof.
   intros m1 lv1 host1 ff1 fl1 uuid1 m2 lv2 host2 ff2 fl2 uuid2 A1 B1 C1 A2 B2 C2 L1 L2 K1 K2 Hne E.
-  apply Hne. unfold user_name_of in E.
-  pose proof (namepart_length m1 lv1 ff1 fl1 uuid1) as N1.
-  pose proof (namepart_length m2 lv2 ff2 fl2 uuid2) as N2.
-  rewrite slice0_all in E by lia. rewrite slice0_all in E by lia.
+  apply Hne.
+  rewrite user_name_untruncated in E by (unfold unique_min_len; lia).
+  rewrite (user_name_untruncated m2) in E by (unfold unique_min_len; lia).
   cbn [app] in E.
-  apply at_split_unique in E as [E _]; try (apply namepart_no_at; auto).
-  destruct (namepart_eq m1 lv1 ff1 fl1 uuid1) as (s1 & _ & P1).
-  destruct (namepart_eq m2 lv2 ff2 fl2 uuid2) as (s2 & _ & P2).
-  rewrite P1, P2 in E. rewrite !app_assoc in E.
+  apply at_split_unique in E as [E _];
+    try (apply join_unique_no_at; auto; apply names_of_no_at; auto).
+  rewrite !join_unique_prefix in E.
   apply app_eq_len_r in E; [tauto|congruence].
 Qed.
 
-(* Same row data, two uuids, arbitrary truncation: the usernames differ as soon as the uuid
-   characters that survive the truncation differ. *)
+(* One row (same names, same host), any truncation: at least unique_min_len = 16 characters of
+   the uuid survive whenever the host name leaves 17 characters (|host| <= 62), so the usernames
+   differ as soon as the first 16 characters of the uuids differ. *)
 Theorem username_unique_prefix :
   forall m lv host ff fl uuid1 uuid2,
-    (length host <= 79)%nat ->
-    let names := (length (fst (used_names m lv ff fl)) + length (snd (used_names m lv ff fl)) + 2)%nat in
-    let k := (79 - length host - names)%nat in           (* uuid characters that survive *)
-    firstn k uuid1 <> firstn k uuid2 ->
+    (length host <= 62)%nat ->
+    firstn 16 uuid1 <> firstn 16 uuid2 ->
     user_name_of m lv host ff fl uuid1 <> user_name_of m lv host ff fl uuid2.
 Proof.
-  intros m lv host ff fl uuid1 uuid2 Hh names k Hne E. apply Hne.
+  intros m lv host ff fl uuid1 uuid2 Hh Hne E. apply Hne.
   unfold user_name_of in E. apply app_inv_tail in E.
-  assert (exists pre, length pre = names /\ forall u, namepart m lv ff fl u = pre ++ u) as (pre & Lp & P).
-  { unfold namepart, names, used_names. destruct (names_for m lv) as [[f l]|]; cbn [fst snd].
-    - exists (f ++ [DOT] ++ l ++ [USCORE]). split.
-      + rewrite !app_length. cbn [length]. lia.
-      + intros u. rewrite <- !app_assoc. reflexivity.
-    - exists (ff ++ [USCORE] ++ fl ++ [USCORE]). split.
-      + rewrite !app_length. cbn [length]. lia.
-      + intros u. rewrite <- !app_assoc. reflexivity. }
-  rewrite (P uuid1), (P uuid2) in E.
-  unfold slice0 in E. destruct (0 <=? 80 - (Z.of_nat (length host) + 1)) eqn:Z0; [|lia].
-  rewrite !firstn_app in E. apply app_inv_head in E.
-  replace (Z.to_nat (80 - (Z.of_nat (length host) + 1)) - length pre)%nat with k in E; [exact E|].
-  unfold k. rewrite Lp. lia.
+  rewrite !join_unique_prefix in E.
+  set (pre := join_prefix (kept_names m lv host ff fl)) in *.
+  assert (namepart_max_len host = 79 - Z.of_nat (length host)) as M by (unfold namepart_max_len; lia).
+  assert (Z.of_nat (length pre) + 16 <= namepart_max_len host) as Lp.
+  { pose proof (kept_names_length m lv host ff fl) as K. unfold unique_min_len in K.
+    unfold pre, join_prefix. destruct (kept_names m lv host ff fl) as [|c r] eqn:EK.
+    - cbn [length]. lia.
+    - rewrite app_length. cbn [length] in *. lia. }
+  rewrite !slice0_nonneg in E by lia. rewrite !firstn_app in E. apply app_inv_head in E.
+  set (j := (Z.to_nat (namepart_max_len host) - length pre)%nat) in *.
+  assert (16 <= j)%nat as Hj by (unfold j; lia).
+  apply (f_equal (firstn 16)) in E. rewrite !firstn_firstn in E.
+  replace (Nat.min 16 j) with 16%nat in E by lia. exact E.
 Qed.
 
 (* ------------------------------------------------------------------ name table *)
@@ -536,24 +549,64 @@ Proof.
   unfold canon. intros [H|H]; rewrite H; auto. apply no_us_idem.
 Qed.
 
+(* the fifth layer: Faker spellings of Snowfakery names *)
+Lemma in_layer5 fa sa k p :
+  In (k, p) (rev (layer5 fa sa)) ->
+  exists nf ns, In nf fa /\ k = lower nf /\ p = (Sf, ns) /\ In ns sa /\ canon nf = canon ns.
+Proof.
+  rewrite <- in_rev. unfold layer5. rewrite in_flat_map. intros (nf & Hnf & H).
+  destruct (assoc (canon nf) (rev (layer Sf canon sa))) as [p'|] eqn:E; [|destruct H].
+  destruct H as [H|[]]. inversion H; subst.
+  apply assoc_In, in_rev_layer in E as (ns & Hns & K & ->). eauto 8.
+Qed.
+
+Lemma keys_layer5 fa sa nf :
+  In nf fa -> In (canon nf) (map canon sa) -> In (lower nf) (map fst (rev (layer5 fa sa))).
+Proof.
+  intros Hnf Hc. rewrite map_rev, <- in_rev. unfold layer5. apply in_map_iff.
+  destruct (assoc_found (canon nf) (rev (layer Sf canon sa))) as [p E].
+  { apply keys_rev_layer. exact Hc. }
+  exists (lower nf, p). split; [reflexivity|]. apply in_flat_map. exists nf. split; auto.
+  rewrite E. left. reflexivity.
+Qed.
+
 Lemma lookup_cases fa sa q p :
   lookup (build fa sa) q = Some p ->
-  (exists n, p = (Sf, n) /\ In n sa /\ (lower q = canon n \/ lower q = lower n)) \/
+  (exists n, p = (Sf, n) /\ In n sa /\ canon q = canon n) \/
   (exists n, p = (Fk, n) /\ In n fa /\ (lower q = canon n \/ lower q = lower n) /\
-             ~ In (lower q) (sf_keys sa)).
+             ~ In (lower q) (map canon sa) /\
+             ~ In (lower q) (map fst (rev (layer5 fa sa)))).
 Proof.
   unfold lookup, build. rewrite !assoc_app.
+  destruct (assoc (lower q) (rev (layer5 fa sa))) eqn:E0.
+  { intros H; inversion H; subst. apply assoc_In, in_layer5 in E0 as (nf & ns & Hnf & K & -> & Hns & C).
+    left. exists ns. splits; auto. rewrite <- C. apply key_canon. auto. }
   destruct (assoc (lower q) (rev (layer Sf canon sa))) eqn:E1.
-  { intros H; inversion H; subst. apply assoc_In, in_rev_layer in E1 as (n & Hn & K & ->). left. eauto. }
+  { intros H; inversion H; subst. apply assoc_In, in_rev_layer in E1 as (n & Hn & K & ->).
+    left. exists n. splits; auto. apply key_canon. auto. }
   destruct (assoc (lower q) (rev (layer Sf lower sa))) eqn:E2.
-  { intros H; inversion H; subst. apply assoc_In, in_rev_layer in E2 as (n & Hn & K & ->). left. eauto. }
-  assert (~ In (lower q) (sf_keys sa)) as NK.
-  { unfold sf_keys. rewrite in_app_iff. intros [A|A].
-    - apply (assoc_None _ _ E2). apply keys_rev_layer. exact A.
-    - apply (assoc_None _ _ E1). apply keys_rev_layer. exact A. }
+  { intros H; inversion H; subst. apply assoc_In, in_rev_layer in E2 as (n & Hn & K & ->).
+    left. exists n. splits; auto. apply key_canon. auto. }
+  assert (~ In (lower q) (map canon sa)) as NK.
+  { intros A. apply (assoc_None _ _ E1). apply keys_rev_layer. exact A. }
+  pose proof (assoc_None _ _ E0) as N5.
   destruct (assoc (lower q) (rev (layer Fk canon fa))) eqn:E3.
-  { intros H; inversion H; subst. apply assoc_In, in_rev_layer in E3 as (n & Hn & K & ->). right. eauto 8. }
-  intros E4. apply assoc_In, in_rev_layer in E4 as (n & Hn & K & ->). right. eauto 8.
+  { intros H; inversion H; subst. apply assoc_In, in_rev_layer in E3 as (n & Hn & K & ->). right. eauto 9. }
+  intros E4. apply assoc_In, in_rev_layer in E4 as (n & Hn & K & ->). right. eauto 9.
+Qed.
+
+(* a query with the canonical form of a Snowfakery name is never answered by Faker *)
+Lemma faker_answer_excluded fa sa q nf ns :
+  In nf fa -> In ns sa -> canon q = canon ns ->
+  (lower q = canon nf \/ lower q = lower nf) ->
+  ~ In (lower q) (map canon sa) -> ~ In (lower q) (map fst (rev (layer5 fa sa))) -> False.
+Proof.
+  intros Hnf Hns C K N4 N5. pose proof (key_canon _ _ K) as Cq.
+  assert (In (canon nf) (map canon sa)) as M.
+  { rewrite <- Cq, C. apply in_map. exact Hns. }
+  destruct K as [K|K].
+  - apply N4. rewrite K. exact M.
+  - apply N5. rewrite K. apply keys_layer5; auto.
 Qed.
 
 Section Lookup.
@@ -563,8 +616,6 @@ Section Lookup.
     forall n1 n2, In n1 fa -> In n2 fa -> canon n1 = canon n2 -> val (Fk, n1) = val (Fk, n2).
   Hypothesis snowfakery_consistent :
     forall n1 n2, In n1 sa -> In n2 sa -> canon n1 = canon n2 -> val (Sf, n1) = val (Sf, n2).
-  Hypothesis snowfakery_covers :
-    forall nf ns, In nf fa -> In ns sa -> canon nf = canon ns -> In (lower nf) (sf_keys sa).
 
   Theorem lookup_spelling_invariant :
     forall q1 q2 p1 p2,
@@ -574,46 +625,35 @@ Section Lookup.
   Proof.
     intros q1 q2 p1 p2 C H1 H2.
     apply lookup_cases in H1. apply lookup_cases in H2.
-    assert (forall q n ns, In n fa -> In ns sa -> canon q = canon n -> canon q = canon ns ->
-                           (lower q = canon n \/ lower q = lower n) -> In (lower q) (sf_keys sa)) as X.
-    { intros q n ns Hn Hns Cn Cns [K|K].
-      - rewrite K. unfold sf_keys. apply in_or_app. right. apply in_map_iff. exists ns. split; auto. congruence.
-      - rewrite K. apply (snowfakery_covers n ns); auto. congruence. }
-    destruct H1 as [(n1 & -> & I1 & K1)|(n1 & -> & I1 & K1 & N1)];
-    destruct H2 as [(n2 & -> & I2 & K2)|(n2 & -> & I2 & K2 & N2)];
-      pose proof (key_canon _ _ K1) as C1; pose proof (key_canon _ _ K2) as C2.
+    destruct H1 as [(n1 & -> & I1 & C1)|(n1 & -> & I1 & K1 & N1 & M1)];
+    destruct H2 as [(n2 & -> & I2 & C2)|(n2 & -> & I2 & K2 & N2 & M2)].
     - apply snowfakery_consistent; auto. congruence.
-    - exfalso. apply N2. apply (X q2 n2 n1); auto. congruence.
-    - exfalso. apply N1. apply (X q1 n1 n2); auto. congruence.
-    - apply faker_consistent; auto. congruence.
-  Qed.
-
-  (* Snowfakery's own names win over Faker's, in both spellings *)
-  Theorem snowfakery_names_win :
-    forall q n, In n sa -> (lower q = lower n \/ lower q = canon n) ->
-      exists n', lookup (build fa sa) q = Some (Sf, n') /\ In n' sa /\ canon n' = canon n.
-  Proof.
-    intros q n Hn K. unfold lookup, build. rewrite !assoc_app.
-    destruct (assoc (lower q) (rev (layer Sf canon sa))) eqn:E1.
-    { apply assoc_In, in_rev_layer in E1 as (n' & Hn' & K' & ->). exists n'. splits; auto.
-      rewrite <- (key_canon q n'), <- (key_canon q n); auto. tauto. }
-    destruct K as [K|K].
-    - destruct (assoc_found (lower q) (rev (layer Sf lower sa))) as [p E2].
-      { apply keys_rev_layer. rewrite K. apply in_map. exact Hn. }
-      rewrite E2. apply assoc_In, in_rev_layer in E2 as (n' & Hn' & K' & ->). exists n'. splits; auto.
-      rewrite <- (key_canon q n'), <- (key_canon q n); auto.
-    - exfalso. apply (assoc_None _ _ E1). apply keys_rev_layer. rewrite K. apply in_map. exact Hn.
-  Qed.
-
-  (* every case variant of a name, with all or none of its underscores, is found *)
-  Theorem lookup_found :
-    forall q n, In n fa \/ In n sa -> (lower q = lower n \/ lower q = canon n) ->
-      lookup (build fa sa) q <> None.
-  Proof.
-    intros q n Hn K E. apply assoc_None in E. apply E. unfold build. rewrite !map_app, !in_app_iff.
-    rewrite !keys_rev_layer. destruct Hn as [Hn|Hn], K as [K|K]; rewrite K; auto using in_map.
+    - exfalso. apply (faker_answer_excluded fa sa q2 n2 n1); auto. congruence.
+    - exfalso. apply (faker_answer_excluded fa sa q1 n1 n2); auto. congruence.
+    - apply faker_consistent; auto. rewrite <- (key_canon _ _ K1), <- (key_canon _ _ K2). exact C.
   Qed.
 End Lookup.
+
+(* Snowfakery's own names win over Faker's in every spelling that is accepted (no hypothesis) *)
+Theorem snowfakery_names_win :
+  forall (fa sa : list string) q n p,
+    In n sa -> canon q = canon n -> lookup (build fa sa) q = Some p ->
+    exists n', p = (Sf, n') /\ In n' sa /\ canon n' = canon n.
+Proof.
+  intros fa sa q n p Hn C H. apply lookup_cases in H.
+  destruct H as [(n' & -> & I & C')|(nf & -> & I & K & N4 & N5)].
+  - exists n'. splits; auto. congruence.
+  - exfalso. apply (faker_answer_excluded fa sa q nf n); auto.
+Qed.
+
+(* every case variant of a name, with all or none of its underscores, is found *)
+Theorem lookup_found :
+  forall (fa sa : list string) q n, In n fa \/ In n sa -> (lower q = lower n \/ lower q = canon n) ->
+    lookup (build fa sa) q <> None.
+Proof.
+  intros fa sa q n Hn K E. apply assoc_None in E. apply E. unfold build. rewrite !map_app, !in_app_iff.
+  rewrite !keys_rev_layer. destruct Hn as [Hn|Hn], K as [K|K]; rewrite K; auto 6 using in_map.
+Qed.
 
 (* the decidable hypotheses evaluated by the correspondence check imply the ones above *)
 Lemma forallb2_sound {X} (f : X -> X -> bool) l :
@@ -634,37 +674,16 @@ Proof.
   - apply in_map_iff. exists n2. auto.
 Qed.
 
-Lemma mem_In s l : mem s l = true <-> In s l.
-Proof.
-  unfold mem. rewrite existsb_exists. split.
-  - intros (x & Hx & E). apply String.eqb_eq in E. subst. auto.
-  - intros H. exists s. split; auto. apply String.eqb_refl.
-Qed.
-
-Lemma coveredb_sound fa sa :
-  coveredb fa sa = true ->
-  forall nf ns, In nf fa -> In ns sa -> canon nf = canon ns -> In (lower nf) (sf_keys sa).
-Proof.
-  unfold coveredb. intros H nf ns Hf Hs C. rewrite forallb_forall in H. specialize (H nf Hf).
-  apply orb_true_iff in H as [H|H].
-  - apply negb_true_iff in H. exfalso. assert (mem (canon nf) (map canon sa) = true) as M.
-    { apply mem_In. rewrite C. apply in_map. exact Hs. }
-    congruence.
-  - apply mem_In. exact H.
-Qed.
-
 Theorem hyps_hold_spelling_invariant :
   forall fa sa sigs, hyps_hold fa sa sigs = true ->
   forall q1 q2 p1 p2, canon q1 = canon q2 ->
     lookup (build fa sa) q1 = Some p1 -> lookup (build fa sa) q2 = Some p2 ->
     sig_of sigs (Some p1) = sig_of sigs (Some p2).
 Proof.
-  intros fa sa sigs H. unfold hyps_hold in H. apply andb_true_iff in H as [H H3].
-  apply andb_true_iff in H as [H1 H2].
+  intros fa sa sigs H. unfold hyps_hold in H. apply andb_true_iff in H as [H1 H2].
   apply (lookup_spelling_invariant fa sa (fun p => sig_of sigs (Some p))).
   - exact (consistentb_sound (fun p => sig_of sigs (Some p)) Fk fa H1).
   - exact (consistentb_sound (fun p => sig_of sigs (Some p)) Sf sa H2).
-  - apply coveredb_sound. exact H3.
 Qed.
 
 (* ------------------------------------------------------------------ the row interpreter *)
@@ -747,34 +766,41 @@ Proof.
   intros H; inversion H; subst. cbn [s_lv assoc]. rewrite String.eqb_refl. reflexivity.
 Qed.
 
-(* ------------------------------------------------------------------ the bound is needed *)
+(* ------------------------------------------------------------------ regression / residue *)
 
-(* values Faker produced for locale en_TH (corpus/C18/k1_uuid_truncated_away.json) *)
+(* values Faker produced for locale en_TH (corpus/C18/k1_uuid_truncated_away.json): before the
+   repair of C18-K1 both uuids gave the same username *)
 Definition k1_lv : lvars :=
   [("lastname"%string, of_string "Lertsattayanusak"); ("firstname"%string, of_string "Pattatomporn")].
 Definition k1_host : str := of_string "desktop-68.kongchayasukawut-lertsattayanusak.info".
 Definition k1_uuid1 : str := of_string "ba2eaeb9-5c8e-474a-9d9b-d5ad0f343e7a".
 Definition k1_uuid2 : str := of_string "04d14a19-0793-4130-8bbf-8f29cbf6c1f2".
 
-Theorem username_unique_refuted :
+Lemma username_k1_regression :
+  user_name_of true k1_lv k1_host [] [] k1_uuid1 <> user_name_of true k1_lv k1_host [] [] k1_uuid2
+  /\ user_name_of true k1_lv k1_host [] [] k1_uuid1
+     = of_string "Pattatomporn._ba2eaeb9-5c8e-47@desktop-68.kongchayasukawut-lertsattayanusak.info".
+Proof. split; [vm_compute; discriminate|vm_compute; reflexivity]. Qed.
+
+(* what remains of the full statement "distinct uuids => distinct usernames": when names and
+   host leave fewer than 36 characters, uuids that agree on the surviving prefix still collide *)
+Lemma username_unique_residue :
   exists matching lv host ff fl uuid1 uuid2,
-    (length host <= 79)%nat /\ no_at host = true /\
-    length uuid1 = 36%nat /\ length uuid2 = 36%nat /\ no_at uuid1 = true /\ no_at uuid2 = true /\
-    uuid1 <> uuid2 /\
+    (length host <= 62)%nat /\ length uuid1 = 36%nat /\ length uuid2 = 36%nat /\
+    uuid1 <> uuid2 /\ firstn 16 uuid1 = firstn 16 uuid2 /\
     user_name_of matching lv host ff fl uuid1 = user_name_of matching lv host ff fl uuid2.
 Proof.
-  exists true, k1_lv, k1_host, [], [], k1_uuid1, k1_uuid2.
+  exists true, k1_lv, k1_host, [], [], k1_uuid1, (of_string "ba2eaeb9-5c8e-4700-0000-000000000000").
   splits; try (vm_compute; reflexivity); try (vm_compute; lia).
   vm_compute. discriminate.
 Qed.
 
-(* a host name of 80 or more characters makes the stop index negative: the slice then drops
-   characters from the end instead of limiting the length *)
+(* a host name of 80 or more characters cannot be repaired by cutting the name part *)
 Theorem username_shape_needs_host_bound :
   exists matching lv host ff fl uuid,
     length host = 80%nat /\ no_at host = true /\
     (length (user_name_of matching lv host ff fl uuid) > 80)%nat.
 Proof.
   exists true, k1_lv, (repeat 104 80), [], [], k1_uuid1.
-  splits; try (vm_compute; reflexivity). vm_compute. lia.
+  splits; vm_compute; reflexivity.
 Qed.
